@@ -6,33 +6,28 @@ import gentree
 from runner import CorrResult
 
 
-def oracle(T, naming, tree, mapping, prenamed=False):
+def oracle(T, naming, tree, mapping):
     """the property, evaluated directly on the implementation's result; returns None or a reason.
-    For a tree that carried names before (prenamed), stale names on elements that are no longer operands are
-    outside the property's "after automatic naming" reading and are ignored: only the operands are judged."""
+    EVERY tree is judged by the exact clauses, whatever names it carried before the call: every node of the
+    tree is walked, and no element other than the operands of operations (or the root alone when no operation
+    has an operand) may carry a name afterwards."""
     named = [(p, naming.get_name(n)) for p, n in gentree.all_nodes(tree) if naming.get_name(n) is not None]
-    if prenamed:
-        operand_paths = set()
-        for p, n in gentree.all_nodes(tree):
-            if isinstance(n, T.BaseOperation):
-                operand_paths.update(p + (i,) for i in range(len(n.children)))
-        if operand_paths:
-            named = [(p, nm) for p, nm in named if p in operand_paths]
     names = [nm for _, nm in named]
     if len(set(names)) != len(names):
         return "two elements carry the same name"
     expected = set()
-    has_op = False
     for p, n in gentree.all_nodes(tree):
         if isinstance(n, T.BaseOperation):
-            has_op = True
             for i in range(len(n.children)):
                 expected.add(p + (i,))
     if not expected:
         expected = {()}
     if set(p for p, _ in named) != expected:
-        return "named elements are not exactly the operands of operations (or the root)"
-    if dict((nm, p) for p, nm in named) != dict(mapping):
+        extra = sorted(set(p for p, _ in named) - expected)
+        missing = sorted(expected - set(p for p, _ in named))
+        return ("named elements are not exactly the operands of operations (or the root): named but not an "
+                "operand %r, operand without name %r" % (extra[:5], missing[:5]))
+    if len(mapping) != len(named) or dict((nm, p) for p, nm in named) != dict(mapping):
         return "mapping does not send each name to the path of the element carrying it"
     for nm, p in mapping.items():
         if naming.get_name(naming.element_from_path(tree, p)) != nm:
@@ -57,21 +52,68 @@ def correspond(model_ok, res):
     if lib.tier() != "quick":
         corpus.append(T.AndOperation(*[T.Word("w") for _ in range(52 * 51 + 60)]))
     trees = corpus + [g.tree(r.randrange(0, 5)) for _ in range(n)]
-    # histories: a tree that was named before, then edited (an operand inserted in front of an operation, a
-    # named sub-tree embedded in a new operation), is named again: old names must be overwritten
+    # regression corpus for the repaired defect (auto_name kept the names of a previous naming on elements that
+    # are not operands any more).  Histories: a tree that was named before, then edited (an operand inserted
+    # in front of an operation, a named sub-tree embedded in a new operation or under a non-operation, the
+    # operation taken away, names put by hand anywhere), is named again: NO old name may survive
     hist = []
     for _ in range(n // 3):
         t0 = g.tree(r.randrange(1, 4))
         naming.auto_name(t0)
         ops = [nd for _, nd in gentree.all_nodes(t0) if isinstance(nd, T.BaseOperation)]
-        if ops and r.random() < 0.7:
+        k = r.random()
+        if ops and k < 0.4:
             o = r.choice(ops)
             o.children = [g.leaf()] + list(o.children)
-        else:
+        elif k < 0.6:
             t0 = r.choice([T.AndOperation, T.OrOperation, T.UnknownOperation])(g.leaf(), t0, g.leaf())
+        elif k < 0.8:
+            # the named tree goes below elements that are not operations
+            t0 = r.choice([lambda e: T.Group(e), lambda e: T.Not(e), lambda e: T.SearchField("f", T.FieldGroup(e)),
+                           lambda e: T.AndOperation(T.Group(e), g.leaf()),
+                           lambda e: T.Boost(T.Group(e), 2)])(t0)
+        else:
+            # names put by hand on arbitrary nodes (duplicates, names the generator will produce itself)
+            nodes = [nd for _, nd in gentree.all_nodes(t0)]
+            for nd in r.sample(nodes, min(len(nodes), r.randrange(1, 5))):
+                naming.set_name(nd, r.choice(["a", "b", "c", "aa", "Z", "zz", "", "name"]))
         hist.append(t0)
+    # the former witness of C15_named_exactly_refuted / C15_mapping_exact_refuted /
+    # C15_tree_names_distinct_refuted (now Example C15_regression_stale_tree, coq/props/C15.v): a stale name on
+    # an element that is not an operand survived
+    w_ = T.Word("x")
+    naming.set_name(w_, "b")
+    stale = T.AndOperation(T.Group(w_), T.Word("y"))
+    hist.append(stale)
+    # named, then edited (Example C15_regression_named_then_edited): the word named as a root, then embedded
+    w2 = T.Word("x")
+    naming.auto_name(w2)
+    hist.append(T.AndOperation(T.Group(w2), T.Word("y")))
+    # the operation taken away (Example C15_regression_operation_removed)
+    a_and_b = T.AndOperation(T.Word("x"), T.Word("y"))
+    naming.auto_name(a_and_b)
+    hist.append(T.Not(a_and_b.children[0]))
+    # everything pre-named with the same name (Example C15_regression_all_prenamed)
+    allp = T.OrOperation(T.Group(T.Word("x")), T.Range(T.Word("1"), T.Word("2")))
+    for _, nd in gentree.all_nodes(allp):
+        naming.set_name(nd, "a")
+    hist.append(allp)
+    st2 = copy.deepcopy(stale)
+    st_map = naming.auto_name(st2)
+    witness_clean = (dict(st_map) == {"a": (0,), "b": (1,)}
+                     and naming.get_name(st2.children[0].children[0]) is None
+                     and naming.get_name(st2.children[0]) == "a"
+                     and naming.get_name(st2.children[1]) == "b"
+                     and naming.get_name(st2) is None)
+    if not witness_clean:
+        res.failures.append(({"tree": "w = Word('x'); set_name(w, 'b'); AndOperation(Group(w), Word('y'))",
+                              "why": "the former witness of the stale-name defect: the name put on w beforehand "
+                                     "is still there after auto_name (or the mapping is not {'a': (0,), 'b': (1,)})",
+                              "mapping": {k: list(v) for k, v in st_map.items()},
+                              "name_of_w": naming.get_name(st2.children[0].children[0])}, None))
     trees += hist
-    renamed = set(id(t) for t in hist)
+    prenamed_ids = set(id(t) for t in hist)
+    prenamed_with_stale = 0
     aborted = 0
     for ti_, tree in enumerate(trees):
         if ti_ % 40 == 7:
@@ -89,6 +131,10 @@ def correspond(model_ok, res):
             del deep
         before = lib.g_item(tree)
         desc = gentree.describe(tree)
+        had_names = sorted((list(p), naming.get_name(nd)) for p, nd in gentree.all_nodes(tree)
+                           if naming.get_name(nd) is not None)
+        if id(tree) in prenamed_ids and had_names:
+            prenamed_with_stale += 1
         w = max([len(nd.children) for _, nd in gentree.all_nodes(tree) if isinstance(nd, T.BaseOperation)] or [0])
         widths[min(w, 60) // 10 * 10] = widths.get(min(w, 60) // 10 * 10, 0) + 1
         t2 = copy.deepcopy(tree)
@@ -98,9 +144,13 @@ def correspond(model_ok, res):
             res.failures.append(({"tree": desc[:2000], "exception": repr(e)}, None))
             expected = "None"
         else:
-            why = oracle(T, naming, t2, mapping, prenamed=id(tree) in renamed)
+            why = oracle(T, naming, t2, mapping)
             if why:
                 res.failures.append(({"tree": desc[:2000], "why": why,
+                                      "names_before_the_call": had_names[:50],
+                                      "names_after_the_call": sorted(
+                                          (list(p), naming.get_name(nd)) for p, nd in gentree.all_nodes(t2)
+                                          if naming.get_name(nd) is not None)[:50],
                                       "mapping": {k: list(v) for k, v in list(mapping.items())[:50]}}, None))
             expected = "(Some (%s, %s))" % (
                 lib.g_item(t2),
@@ -115,7 +165,9 @@ def correspond(model_ok, res):
                 "operands, NoneItem, operations under ranges), plus operations wider than the 52-letter "
                 "alphabet; non-trivial = distinct tree with more than one node")
     res.samples = payloads[3:9]
-    res.distribution = {"max_operation_width_bucket": widths, "aborted_calls_interleaved": aborted}
+    res.distribution = {"max_operation_width_bucket": widths, "aborted_calls_interleaved": aborted,
+                        "prenamed_histories": len(hist), "prenamed_histories_carrying_names": prenamed_with_stale,
+                        "former_witness_clean": bool(witness_clean)}
     if model_ok:
         defs = ("Definition chk (c : item * option (item * list (str * path))) : bool :=\n"
                 "  match auto_name (fst c), snd c with\n"
@@ -140,10 +192,21 @@ SPEC = {
     "model_targets": ["model/Naming.vo", "model/TreeEq.vo"],
     "module": "C15",
     "theorems": ["C15_total", "C15_names_distinct", "C15_named_exactly_operands", "C15_mapping_exact",
-                 "C15_next_name_never_repeats", "C15_mapping_sound_any_history"],
+                 "C15_next_name_never_repeats", "C15_mapping_sound_any_history",
+                 "C15_operands_named_any_history", "C15_tree_names_distinct", "C15_names_cleared_first"],
     "correspond": correspond,
-    "statement": "auto_name never fails; all names distinct; named elements are exactly the operands of "
-                 "operations (or the root alone); the mapping is exactly name -> path of the element",
+    "statement": "for EVERY tree, whatever names it carried beforehand (a tree named earlier and edited since, "
+                 "names put by hand): auto_name never fails; all names of the mapping are distinct; the elements "
+                 "that carry a name afterwards are exactly the operands of operations, or the root alone when NO "
+                 "OPERATION HAS AN OPERAND (the model's reading of 'no operation': "
+                 "auto_name(Group(AndOperation())) names the root - Example C15_root_alone_empty_operation); the "
+                 "mapping is exactly name -> path of the element carrying it; no two elements carry the same name "
+                 "(C15_tree_names_distinct). No hypothesis on the input: TreeAutoNamer.visit first removes the name "
+                 "of every node (_clear_names; C15_names_cleared_first: the cleared tree carries no name and "
+                 "differs from the input by names only). Regression Examples (C15_regression_stale_tree, "
+                 "_named_then_edited, _operation_removed, _all_prenamed) on the former witnesses: before the "
+                 "repair AndOperation(Group(w), Word('y')) with set_name(w, 'b') left w named 'b', the name given "
+                 "to Word('y'). The oracle walks every node of every tree, pre-named or not",
     "trusted_base": [
         "Coq 8.16.1 kernel (vm_compute used for table facts and correspondence; no native_compute)",
         "no axioms (Print Assumptions: closed under the global context)",
@@ -152,6 +215,5 @@ SPEC = {
         "differential correspondence (harness/c15.py) on every run",
         "value-based tree model: a Python object shared between two positions is not modelled",
     ],
-    "assumptions": ["trees contain only luqum.tree classes; no node object occurs at two positions",
-                    "input tree carries no names beforehand (auto_name never clears stale names)"],
+    "assumptions": ["trees contain only luqum.tree classes; no node object occurs at two positions"],
 }
